@@ -18,7 +18,7 @@ fn group_matrix(c: char) -> &'static str {
     match c { 'C' => "[-syll]", 'O' => "[+cons, -son, -syll]", 'S' => "[+cons, +son, -syll]", 'P' => "[+cons, -son, -syll, -delrel, -cont]", 'F' => "[+cons, -son, -syll, -approx, +cont]", 'L' => "[+cons, +son, -syll, +approx]", 'N' => "[+cons, +son, -syll, -approx, +nasal]", 'G' => "[-cons, +son, -syll]", _ => "[-cons, +son, +syll]" }
 }
 
-fn gen(r: &mut Rng) -> Case {
+pub(crate) fn gen(r: &mut Rng) -> Case {
     let mut words: Vec<String> = if r.chance(1, 2) { small_words(r, 12) } else { (0..8).map(|_| rand_word(r, &WordCfg::default())).collect() };
     match r.below(5) {
         0 => { // condensed
@@ -116,7 +116,7 @@ pub fn judge(rep: &mut Report, c: &Case) {
 }
 
 pub fn explore(ctx: &Ctx, shard: usize, n: usize) -> Report {
-    drive::cases(ctx, shard, n, RULE, 0x12, 40_000, 2_000_000, |r, rep, _| { let c = gen(r); judge(rep, &c); })
+    drive::cases(ctx, shard, n, RULE, 0x12, 40_000, 20_000_000, |r, rep, _| { let c = gen(r); judge(rep, &c); })
 }
 pub fn replay(_ctx: &Ctx, v: &Value) -> Report {
     let mut rep = Report::new(RULE);
